@@ -297,6 +297,34 @@ fn fam_vli(ctx: &CaseCtx, cov: &mut Cov) -> CaseOut {
     out
 }
 
+/// blocks whose LZMA2 payload has a compressed chunk on a boundary of its own size field
+/// (65535 .. 2 MiB; the builder is C02's)
+fn fam_chunk_sizes(ctx: &CaseCtx, cov: &mut Cov) -> CaseOut {
+    let mut out = CaseOut::default();
+    let mut rng = ctx.rng();
+    let targets = super::c02::SIZE_FIELD_BOUNDARIES;
+    let t = targets[(ctx.index as usize) % targets.len()];
+    let props = crate::refmodel::lzma::Props::new(rng.below(5) as u32, 0, rng.below(5) as u32);
+    let chunks = super::c02::sized_chunk_stream(&mut rng, props, t);
+    let w = match crate::refmodel::lzma2::write(&chunks) {
+        Ok(w) => w,
+        Err(e) => {
+            out.harness_error(format!("lzma2 writer: {:?}", e));
+            return out;
+        }
+    };
+    let check = *rng.pick(&[0u8, 1, 4]);
+    let bo = BlockOpts { with_packed: rng.chance(1, 2), with_unpacked: rng.chance(1, 2), extra_header_words: 0, dict_prop: xz::lzma2_dict_prop_for(w.need_dict.max(1)) };
+    let spec = XzSpec::new(check, vec![BlockSpec::new(w.bytes, w.output, check, &bo)]);
+    let (file, _) = spec.serialize();
+    cov_spec(cov, &spec, file.len());
+    cov.name(&format!("lzma2_chunk_unpacking_to.{:#x}", t), 1);
+    let desc = format!("check {} one block, LZMA2 chunk unpacking to exactly {:#x} bytes", check, t);
+    check_file("chunk_sizes", &file, &spec.plain(), &desc, ReaderKind::from_selector(ctx.index / 14), &mut out, cov, ctx, true);
+    out.sample = Some(J::obj().set("file", J::s(desc)).set("file_len", J::i(file.len())));
+    out
+}
+
 /// files written by liblzma (multi-block through LZMA_FULL_FLUSH)
 fn fam_liblzma(ctx: &CaseCtx, cov: &mut Cov) -> CaseOut {
     let mut out = CaseOut::default();
@@ -379,6 +407,7 @@ pub fn monitor(tier: Tier) -> Monitor {
         families: vec![
             Family { name: "big", count: tier.pick(4, 12), priority: true, enumerated: false, run: fam_big },
             Family { name: "vli_boundaries", count: tier.pick(52, 520), priority: true, enumerated: false, run: fam_vli },
+            Family { name: "chunk_size_boundaries", count: tier.pick(28, 280), priority: true, enumerated: false, run: fam_chunk_sizes },
             Family { name: "random", count: tier.pick(20_000, 600_000), priority: false, enumerated: false, run: fam_random },
             Family { name: "readers", count: tier.pick(300, 10_000), priority: false, enumerated: false, run: fam_readers },
             Family { name: "many_blocks", count: tier.pick(60, 1500), priority: false, enumerated: false, run: fam_many_blocks },
